@@ -270,19 +270,30 @@ func (ip *interp) file(file string, st *State) error {
 			}
 			sub.PrevOwner, sub.OwnerUnknown = nil, true
 			sub.Depth = st.Depth + 1
+			if it.ViaGenerate && it.HasIncOrigin && !PlainLabels(it.IncOrigin) {
+				return invalid("origin of a $GENERATE-made $INCLUDE needs plain labels")
+			}
 			if sub.Depth > MaxIncludeDepth {
 				ip.den.Err, ip.den.ErrFile, ip.den.ErrItem = "include-depth", file, i
 				ip.fact(file, len(items), i, f)
 				return nil
 			}
-			fname := FSName(it.File)
+			fname := ResolveInclude(file, it.File)
 			if _, ok := ip.z.Files[fname]; !ok || fname == ip.z.FileName {
 				ip.den.Err, ip.den.ErrFile, ip.den.ErrItem = "include-open", file, i
 				ip.fact(file, len(items), i, f)
 				return nil
 			}
-			if err := ip.file(fname, &sub); err != nil {
-				return err
+			times := 1
+			if it.ViaGenerate && it.GenTimes > 1 {
+				times = it.GenTimes
+			}
+			for k := 0; k < times && ip.den.Err == ""; k++ {
+				// every inclusion starts from the includer's state
+				s2 := sub
+				if err := ip.file(fname, &s2); err != nil {
+					return err
+				}
 			}
 			ip.fact(file, len(items), i, f)
 			if ip.den.Err != "" {
@@ -321,7 +332,7 @@ func (ip *interp) subtreeTTL(file string, seen map[string]bool) (dollar, stated 
 		case KGenerate:
 			stated = stated || (it.Gen != nil && it.Gen.HasTTL)
 		case KInclude:
-			d, s := ip.subtreeTTL(FSName(it.File), seen)
+			d, s := ip.subtreeTTL(ResolveInclude(file, it.File), seen)
 			dollar, stated = dollar || d, stated || s
 		}
 	}
